@@ -9,6 +9,8 @@ CONSTANTS
   SaveAsSet = {"none"}
   Modes = {"deleted", "truncated", "nonjson", "unknown", "shape", "datagone"}
   MayFail = TRUE
+  PoolSet = {FALSE}
+  AssembleMode = "index"
   MaxFaults = 2
 INVARIANT RoundTrip
 INVARIANT ErrorsPersisted
